@@ -160,15 +160,23 @@ def run(tier: str, driver_ok: bool) -> Result:
                 combos += [(r.choice(windows), r.choice(identity)) for _ in range(6)]
                 if variant not in ("right", "other_key_same_label"):
                     combos = r.sample(combos, 14)
-            for (df, du), (tagc, dsc, claim) in combos:
+            # the same instants written with non-UTC offsets in the configuration (the window is about instants, not wall-clock text)
+            tz_combos = [(c, None) for c in combos]
+            if variant in ("right", "second_slot"):
+                for off in (2, -5, 5.5):
+                    tz_combos += [((w, ("unset", "unset", "right")), off) for w in windows]
+            for ((df, du), (tagc, dsc, claim)), tz_off in tz_combos:
                 sc = base_scenario(alg, tk)
                 facts = apply_token_variant(sc, variant, alg)
                 req = sc.request()
                 b = req.bundles[0]
                 e = C.ksk_config_entry("Kka", tk, alg)  # claims describe the CONFIGURED key tk (token may hold another)
-                e["valid_from"] = (b.inception + df * SEC).isoformat()
+                from datetime import timezone as _tz
+
+                zone = _tz.utc if tz_off is None else _tz(timedelta(hours=tz_off))
+                e["valid_from"] = (b.inception + df * SEC).astimezone(zone).isoformat()
                 if du is not None:
-                    e["valid_until"] = (b.expiration + du * SEC).isoformat()
+                    e["valid_until"] = (b.expiration + du * SEC).astimezone(zone).isoformat()
                 import base64
 
                 pk = tk.dnskey_b64() if tk.kind == "rsa" else base64.b64encode(tk.ec_point(prefix=True))
@@ -200,7 +208,7 @@ def run(tier: str, driver_ok: bool) -> Result:
                     claims_ok = False
                 sc.ksks["ka"]["entry"] = e
                 x = S.run_sign(sc, "sign_bundles")
-                case = {"alg": alg, "token": variant, "valid_from_offset_s": df, "valid_until_offset_s": du, "tag": tagc, "ds": dsc, "claim": claim}
+                case = {"alg": alg, "token": variant, "valid_from_offset_s": df, "valid_until_offset_s": du, "tag": tagc, "ds": dsc, "claim": claim, "config_utc_offset_h": tz_off}
                 x["case"] = case
                 runs.append(x)
                 res.count(case)
